@@ -274,3 +274,95 @@ func (m *Map) Range(f func(k, v interface{}) bool) {
 	vsched.YieldObj("Map.Range", uintptr(unsafe.Pointer(m)), false)
 	m.m.Range(f)
 }
+
+// Pool mirrors sync.Pool with a deterministic policy: Get returns the most recently Put value
+// (LIFO) and nothing is ever dropped. That is one of the behaviours sync.Pool allows and the one
+// under which state left in a recycled object is most visible. Each operation is a scheduling
+// point on top of a real mutex (so the race detector sees the pool's own synchronisation).
+type Pool struct {
+	New   func() interface{}
+	mu    sync.Mutex
+	items []interface{}
+}
+
+//go:norace
+func (p *Pool) Get() interface{} {
+	if vsched.Active() {
+		vsched.YieldObj("Pool.Get", uintptr(unsafe.Pointer(p)), true)
+	}
+	p.mu.Lock()
+	if n := len(p.items); n > 0 {
+		x := p.items[n-1]
+		p.items = p.items[:n-1]
+		p.mu.Unlock()
+		return x
+	}
+	p.mu.Unlock()
+	if p.New != nil {
+		return p.New()
+	}
+	return nil
+}
+
+//go:norace
+func (p *Pool) Put(x interface{}) {
+	if x == nil {
+		return
+	}
+	if vsched.Active() {
+		vsched.YieldObj("Pool.Put", uintptr(unsafe.Pointer(p)), true)
+	}
+	p.mu.Lock()
+	p.items = append(p.items, x)
+	p.mu.Unlock()
+}
+
+// Cond mirrors sync.Cond on top of the modelled locks: Wait releases L, parks until a later
+// Signal/Broadcast, and re-acquires L.
+type Cond struct {
+	L       Locker
+	gen     uint64 // incremented by Broadcast
+	tickets uint64 // Signal hands out one wake-up each
+	waiters uint64
+}
+
+func NewCond(l Locker) *Cond { return &Cond{L: l} }
+
+type condProbe struct {
+	c   *Cond
+	gen uint64
+}
+
+//go:norace
+func (p condProbe) Ready() bool { return p.c.gen != p.gen || p.c.tickets > 0 }
+
+//go:norace
+func (c *Cond) Wait() {
+	gen := c.gen
+	c.waiters++
+	c.L.Unlock()
+	vsched.BlockObj("Cond.Wait", condProbe{c, gen}, uintptr(unsafe.Pointer(c)), true)
+	if c.gen == gen && c.tickets > 0 {
+		c.tickets--
+	}
+	c.waiters--
+	if vsched.Exiting() {
+		return
+	}
+	c.L.Lock()
+}
+
+//go:norace
+func (c *Cond) Signal() {
+	vsched.YieldObj("Cond.Signal", uintptr(unsafe.Pointer(c)), true)
+	if c.waiters > c.tickets {
+		c.tickets++
+	}
+}
+
+//go:norace
+func (c *Cond) Broadcast() {
+	vsched.YieldObj("Cond.Broadcast", uintptr(unsafe.Pointer(c)), true)
+	c.gen++
+	c.tickets = 0
+}
